@@ -382,7 +382,23 @@ def r6(ctx):
     fixed_set_range(ctx, P, "C08.R6")
 
 
-RULES = [r1, r2, r3, r3b, r4, r5, r6]
+def r7(ctx):
+    """has() after a crash: the bitfield pages of a flush reach the disk before the header write that obsoletes the log entries holding the same updates (the ordering clauses of C02.R4)"""
+    from . import c02
+    before = len(ctx.insts)
+    c02.r4(ctx)
+    kept = []
+    for i in ctx.insts[before:]:
+        if True:
+            i.prop, i.rule = P, "C08.R7"
+            i.key = i.key.replace("C02|C02.R4", "C08|C08.R7")
+            kept.append(i)
+    ctx.insts[before:] = kept
+    if not kept:
+        ctx.missing(P, "C08.R7", "shared clauses of c02.r4", "no instance")
+
+
+RULES = [r1, r2, r3, r3b, r4, r5, r6, r7]
 EXPLANATION = ("C08 (has / contiguous_length exact for large, sparse, reopened cores): decides that every page/bit computation uses one named unit constant consistently (mask C-1 and divisor C, "
                "32768 bits = 4096 bytes = 1024 x 32-bit words) and that a missing page reads false (R1); that the page reader uses the writer's byte stride and page-relative little-endian words (R2); "
                "that every Bitfield::update in core.rs is followed on all paths by update_contiguous_length on the same update and bitfield, clear lowers the hint to `start`, info reports the "
